@@ -81,6 +81,10 @@ fn main() {
         "C06" => run_property(props::c06::C06, args),
         "C07" => run_property(props::c07::C07, args),
         "C15" => run_property(props::c15::C15, args),
+        "C16" => run_property(props::c16::C16, args),
+        "C17" => run_property(props::c17::C17, args),
+        "C18" => run_property(props::c18::C18, args),
+        "C19" => run_property(props::c19::C19, args),
         "C20" => run_property(props::c20::C20, args),
         _ => {
             eprintln!("unknown property {}", id);
